@@ -6,7 +6,7 @@
    Theorems quantify over every codec that satisfies the stated law, every configuration, framing
    (Content-Length / chunked / until-EOF), segmentation, close point and consumer schedule (`evs`), and every
    recursion fuel.  `init c t len enc` is the state right after the message head was parsed. *)
-From AV Require Import Lib.Base Generated.DecodeGen Model.Decode Proofs.DecodeBasic Proofs.DecodeBound Proofs.DecodeHandler Proofs.DecodeInst.
+From AV Require Import Lib.Base Generated.DecodeGen Model.Decode Proofs.DecodeBasic Proofs.DecodeBound Proofs.DecodeProgress Proofs.DecodeHandler Proofs.DecodeInst.
 
 (* ---- bounded memory ------------------------------------------------------------------------------
    Whatever the compression ratio: if one decompress_sync(data, max_length = m) call returns at most capf m
@@ -67,7 +67,81 @@ Example C09_handler_cap_example :
 Proof. vm_compute. split; reflexivity. Qed.
 Print Assumptions C09_handler_cap_example.
 
-(* ---- progress / reaches EOF: see below (restored once re-proved for the repaired code) ---- *)
+(* ---- progress (all framings; repaired code: dc85988 stale `_paused`, 497a2a6 re-wait, 72e5a25 parser kept at close) ----
+   For every codec whose decompress_sync leaves data_available false after an output-less call (ZLibDecompressor:
+   `_last_empty`), read_bufsize >= 1, Content-Length / chunked / until-EOF framing, with or without transport flow
+   control, every history and fuel: while the connection is open and no payload error is set, an empty buffer
+   implies that the parser holds no unprocessed input and that reading is not paused - the consumer waits for
+   the network, never for a resume that nobody will issue.  (Before dc85988 this was refuted for chunked bodies;
+   the refuting history is now the regression example below.) *)
+Theorem C09_progress :
+  forall (H : Type) (hnew : N -> H) (hstep : H -> bytes -> N -> option (option (H * bytes)))
+         (havail heof : H -> bool) (hflush : H -> option bytes),
+    (forall h x m h', hstep h x m = Some (Some (h', [])) -> havail h' = false) ->
+    forall fuel c t len enc evs (y : sys H) os,
+      1 <= c_limit c ->
+      run H hnew hstep havail heof hflush fuel (init H hnew c t len enc) evs = (y, os) ->
+      rexn (re (core y)) = None -> connected (pr (core y)) = true -> buf (re (core y)) = [] ->
+      has_more (pr (core y)) = false /\ rpaused (pr (core y)) = false /\ tpaused (pr (core y)) = false.
+Proof. exact progress_all. Qed.
+Print Assumptions C09_progress.
+
+(* ---- end of body after the peer closed -----------------------------------------------------------------------
+   Same hypotheses: once the connection is lost, an empty buffer implies that EOF was fed or a payload error is
+   set: the consumer's next read returns b"" or raises the payload's exception, it never waits and never ends in
+   RuntimeError("Connection closed.").  (Before 72e5a25 this was refuted: pending decoded output was dropped.)
+   The theorem does not say the error is deserved: on a transport without flow control a complete chunked body
+   whose tail is still unparsed at close ends in TransferEncodingError (open finding
+   C09-chunked-close-while-pending-noflow). *)
+Theorem C09_reaches_eof :
+  forall (H : Type) (hnew : N -> H) (hstep : H -> bytes -> N -> option (option (H * bytes)))
+         (havail heof : H -> bool) (hflush : H -> option bytes),
+    (forall h x m h', hstep h x m = Some (Some (h', [])) -> havail h' = false) ->
+    forall fuel c t len enc evs (y : sys H) os,
+      1 <= c_limit c ->
+      run H hnew hstep havail heof hflush fuel (init H hnew c t len enc) evs = (y, os) ->
+      connected (pr (core y)) = false -> buf (re (core y)) = [] ->
+      reof (re (core y)) = true \/ rexn (re (core y)) <> None.
+Proof. exact reaches_eof_all. Qed.
+Print Assumptions C09_reaches_eof.
+
+(* the codec law is satisfiable *)
+Theorem C09_progress_instance :
+  forall fuel c t len enc evs (y : ic_sys) os,
+    1 <= c_limit c -> ic_run fuel (ic_init c t len enc) evs = (y, os) ->
+    rexn (re (core y)) = None -> connected (pr (core y)) = true -> buf (re (core y)) = [] ->
+    has_more (pr (core y)) = false /\ rpaused (pr (core y)) = false /\ tpaused (pr (core y)) = false.
+Proof. exact progress_idcap. Qed.
+Print Assumptions C09_progress_instance.
+
+Theorem C09_reaches_eof_instance :
+  forall fuel c t len enc evs (y : ic_sys) os,
+    1 <= c_limit c -> ic_run fuel (ic_init c t len enc) evs = (y, os) ->
+    connected (pr (core y)) = false -> buf (re (core y)) = [] ->
+    reof (re (core y)) = true \/ rexn (re (core y)) <> None.
+Proof. exact reaches_eof_idcap. Qed.
+Print Assumptions C09_reaches_eof_instance.
+
+(* the three histories that refuted the property on the unrepaired code, on the repaired model:
+   chunked "3 abc" / readany / readany / "3 def 0": the blocked read now returns "def", then EOF;
+   9-byte toy gzip bomb, no flow control, peer closes while input is pending: all 600 bytes, then EOF;
+   wrong checksum after a data-less chunk end: the blocked read raises the payload error *)
+Example C09_progress_regression :
+  snd (toy_run 100 (toy_init 1 true 8190 8190 125 true PChunked 0 0) w_stale_events) =
+  [ONone; ORes (RData [97; 98; 99]); ORes RBlocked; ORes (RData [100; 101; 102]); ORes (RData [])].
+Proof. exact stale_pause_regression. Qed.
+Print Assumptions C09_progress_regression.
+
+Example C09_reaches_eof_regression :
+  let r := toy_run 1000 (toy_init 1 true 8190 8190 125 false PLength 9 1) w_lost_events in
+  last (snd r) ONone = ORes (RData []) /\ lenN (delivered (re (core (fst r)))) = 600 /\ reof (re (core (fst r))) = true.
+Proof. exact lost_at_close_regression. Qed.
+Print Assumptions C09_reaches_eof_regression.
+
+Example C09_error_wakeup_regression :
+  last (snd (toy_run 100 (toy_init 64 true 8190 8190 125 true PChunked 5 1) w_rewait_events)) ONone = ORes (RErr EContentEncoding).
+Proof. exact rewait_regression. Qed.
+Print Assumptions C09_error_wakeup_regression.
 
 (* ---- client_max_size ------------------------------------------------------------------------------
    BaseRequest.read(): what it returns never exceeds client_max_size, and what it accumulated before
